@@ -37,6 +37,10 @@ def content_isotherm(iso):
     else:
         out["data"] = ["none"]
     out["loose"] = loose_key(out)
+    # the same without the adsorbate's name (which spelling of a registry gas an isotherm carries is C08's business)
+    d2 = dict(d)
+    d2.pop("adsorbate", None)
+    out["loose_na"] = hashlib.sha256(json.dumps([out["type"], dg.canon(d2), out["mname"], out["data"]], sort_keys=True).encode()).hexdigest()[:20]
     out["temperature"] = dg.canon(iso.to_dict().get("temperature"))
     return out
 
@@ -44,6 +48,47 @@ def content_isotherm(iso):
 def loose_key(c):
     """Identity of an isotherm's content apart from its material's properties."""
     return hashlib.sha256(json.dumps([c["type"], c["d"], c["mname"], c["data"]], sort_keys=True).encode()).hexdigest()[:20]
+
+
+def _scribble_dict(d):
+    for k in list(d):
+        v = d[k]
+        if isinstance(v, list):
+            for i in range(len(v)):
+                v[i] = "scribbled"
+            v.append("scribbled")
+        elif isinstance(v, dict):
+            _scribble_dict(v)
+        d[k] = "scribbled"
+    d["scribbled"] = "x"
+
+
+def scribble(obj):
+    """What a caller may do with objects a retrieval handed to it: edit them, in place, every container they own.
+    (The Adsorbate of a retrieved isotherm is the process-wide registry entry, not the caller's: left alone.)"""
+    props = getattr(obj, "properties", None)
+    if isinstance(props, dict):
+        _scribble_dict(props)
+    if isinstance(getattr(obj, "alias", None), list) and not hasattr(obj, "iso_id"):
+        obj.alias.append("scribbled")
+    if hasattr(obj, "iso_id"):
+        if hasattr(obj, "data_raw"):
+            df = obj.data_raw
+            for c in df.columns:
+                if df[c].dtype.kind == "f":
+                    df.loc[:, c] = -7.5
+        model = getattr(obj, "model", None)
+        if model is not None:
+            for k in list(getattr(model, "params", {}) or {}):
+                model.params[k] = -7.5
+            for rn in ("pressure_range", "loading_range"):
+                r = getattr(model, rn, None)
+                if isinstance(r, list):
+                    for i in range(len(r)):
+                        r[i] = -7.5
+        mat = getattr(obj, "material", None)
+        if mat is not None and isinstance(getattr(mat, "properties", None), dict):
+            _scribble_dict(mat.properties)
 
 
 def _outcome(exc):
@@ -71,39 +116,48 @@ def exec_op(op, dbmap, state, on_failure=None):
         db = pathlib.Path(db)      # a path given as an object instead of a string names the same file
     reply = {}
     value = None
+    vb = bool(op.get("verbose"))    # the library's own progress messages (logger.info) - must not matter
     try:
         if o == "adsorbate_to_db":
             a = build.make_adsorbate(op["ads"])
             reply["uploaded"] = content_adsorbate(a)
-            pgsql.adsorbate_to_db(a, db_path=db, verbose=False, overwrite=op.get("overwrite", False),
+            pgsql.adsorbate_to_db(a, db_path=db, verbose=vb, overwrite=op.get("overwrite", False),
                                   autoinsert_properties=op.get("autoinsert_properties", True))
         elif o == "adsorbate_delete_db":
             target = build.make_adsorbate({"name": op["name"]}) if op.get("by") == "object" else op["name"]
-            pgsql.adsorbate_delete_db(target, db_path=db, verbose=False)
+            pgsql.adsorbate_delete_db(target, db_path=db, verbose=vb)
         elif o == "adsorbates_from_db":
-            value = [content_adsorbate(a) for a in pgsql.adsorbates_from_db(db_path=db, verbose=False)]
+            got = pgsql.adsorbates_from_db(db_path=db, verbose=vb)
+            value = [content_adsorbate(a) for a in got]
+            if op.get("scribble"):
+                for a in got:
+                    scribble(a)
         elif o == "material_to_db":
             m = build.make_material(op["mat"])
             reply["uploaded"] = content_material(m)
-            pgsql.material_to_db(m, db_path=db, verbose=False, overwrite=op.get("overwrite", False),
+            pgsql.material_to_db(m, db_path=db, verbose=vb, overwrite=op.get("overwrite", False),
                                  autoinsert_properties=op.get("autoinsert_properties", True))
         elif o == "material_delete_db":
             target = build.make_material({"name": op["name"]}) if op.get("by") == "object" else op["name"]
-            pgsql.material_delete_db(target, db_path=db, verbose=False)
+            pgsql.material_delete_db(target, db_path=db, verbose=vb)
         elif o == "materials_from_db":
-            value = [content_material(m) for m in pgsql.materials_from_db(db_path=db, verbose=False)]
+            got = pgsql.materials_from_db(db_path=db, verbose=vb)
+            value = [content_material(m) for m in got]
+            if op.get("scribble"):
+                for m in got:
+                    scribble(m)
         elif o == "ptype_to_db":
             fn = {"adsorbate": pgsql.adsorbate_property_type_to_db, "material": pgsql.material_property_type_to_db,
                   "isotherm": pgsql.isotherm_property_type_to_db, "isotype": pgsql.isotherm_type_to_db}[op["table"]]
-            fn(dict(op["type_dict"]), db_path=db, verbose=False, overwrite=op.get("overwrite", False))
+            fn(dict(op["type_dict"]), db_path=db, verbose=vb, overwrite=op.get("overwrite", False))
         elif o == "ptype_delete_db":
             fn = {"adsorbate": pgsql.adsorbate_property_type_delete_db, "material": pgsql.material_property_type_delete_db,
                   "isotherm": pgsql.isotherm_property_type_delete_db, "isotype": pgsql.isotherm_type_delete_db}[op["table"]]
-            fn(op["type"], db_path=db, verbose=False)
+            fn(op["type"], db_path=db, verbose=vb)
         elif o == "ptypes_from_db":
             fn = {"adsorbate": pgsql.adsorbate_property_types_from_db, "material": pgsql.material_property_types_from_db,
                   "isotherm": pgsql.isotherm_property_types_from_db, "isotype": pgsql.isotherm_types_from_db}[op["table"]]
-            value = [dg.canon(d) for d in fn(db_path=db, verbose=False)]
+            value = [dg.canon(d) for d in fn(db_path=db, verbose=vb)]
         elif o == "isotherm_to_db":
             if op.get("reuse_edit") and state.get("last_iso") is not None:
                 # the caller edits the isotherm object it uploaded last - in place - and uploads that same object again
@@ -113,7 +167,7 @@ def exec_op(op, dbmap, state, on_failure=None):
                 iso = build.make_isotherm(op["iso"])
             state["last_iso"] = iso
             reply["uploaded"] = content_isotherm(iso)
-            kw = dict(db_path=db, verbose=False, autoinsert_material=op.get("autoinsert_material", True),
+            kw = dict(db_path=db, verbose=vb, autoinsert_material=op.get("autoinsert_material", True),
                       autoinsert_adsorbate=op.get("autoinsert_adsorbate", True))
             if op.get("via") == "method":
                 iso.to_db(**kw)
@@ -127,28 +181,31 @@ def exec_op(op, dbmap, state, on_failure=None):
                 spec.setdefault("meta", {})["bulk_k"] = float(i) + 0.5
                 iso = build.make_isotherm(spec)
                 ups.append(content_isotherm(iso))
-                pgsql.isotherm_to_db(iso, db_path=db, verbose=False)
+                pgsql.isotherm_to_db(iso, db_path=db, verbose=vb)
                 ups[-1]["done"] = True
         elif o == "isotherm_delete_db":
             by = op.get("by", "id")
             if by == "id":
-                pgsql.isotherm_delete_db(op["iso_id"], db_path=db, verbose=False)
+                pgsql.isotherm_delete_db(op["iso_id"], db_path=db, verbose=vb)
             elif by == "object":
                 iso = build.make_isotherm(op["iso"])
                 reply["target"] = content_isotherm(iso)
-                pgsql.isotherm_delete_db(iso, db_path=db, verbose=False)
+                pgsql.isotherm_delete_db(iso, db_path=db, verbose=vb)
             else:  # through an isotherm object just retrieved
-                got = pgsql.isotherms_from_db(db_path=db, verbose=False)
+                got = pgsql.isotherms_from_db(db_path=db, verbose=vb)
                 cs = sorted(((content_isotherm(g), k) for k, g in enumerate(got)), key=lambda t: (t[0]["loose"], t[1]))
                 reply["retrieved_n"] = len(cs)
                 if cs:
                     c, k = cs[op.get("pick", 0) % len(cs)]
                     reply["target"] = c
-                    pgsql.isotherm_delete_db(got[k], db_path=db, verbose=False)
+                    pgsql.isotherm_delete_db(got[k], db_path=db, verbose=vb)
         elif o == "isotherms_from_db":
             crit = op.get("criteria") or None
-            got = pgsql.isotherms_from_db(criteria=dict(crit) if crit else None, db_path=db, verbose=False)
+            got = pgsql.isotherms_from_db(criteria=dict(crit) if crit else None, db_path=db, verbose=vb)
             value = [content_isotherm(g) for g in got]
+            if op.get("scribble"):
+                for g in got:
+                    scribble(g)
         else:
             raise ValueError("unknown store op " + o)
     except Exception as e:  # noqa: BLE001 - every outcome is data
